@@ -85,7 +85,7 @@ class PopulationBalanceModel:
         #Hidden variable for use in KWNEuler when adaptive time stepping is enabled
         #This allows for PSD to revert to its previous value if a time constraint is not met
         self._prevPSD = np.zeros(self.bins)
-        self._prevPSDbounds = np.zeros(self.bins+1)
+        self._prevPSDbounds = copy.copy(self.PSDbounds)
 
         #Temporary storage for net flux
         #This is used to correct the fluxes once the time step is known
